@@ -72,6 +72,8 @@ func (t *secureServer) serve(listener net.Listener) (err error) {
 		klog.ErrorS(err, "tls server shutdown")
 	}()
 
+	servers := newSecureExposedServers(t.internalServers)
+	lsns := matchServers(mux, servers)
 	group, ctx := errgroup.WithContext(ctx)
 	group.Go(func() error {
 		defer cancel()
@@ -80,7 +82,7 @@ func (t *secureServer) serve(listener net.Listener) (err error) {
 
 	group.Go(func() error {
 		defer cancel()
-		return runServers(ctx, mux, newSecureExposedServers(t.internalServers))
+		return runServers(ctx, lsns, servers)
 	})
 
 	return group.Wait()
